@@ -156,12 +156,13 @@ type World struct {
 	regs         []*SimCallback
 	cbEvents     []cbEvent
 	expAdd       []cbExpect
+	optAdd       []cbExpect // add-time events that may, but need not, happen in this step
 	passExpected []cbExpect
 	inPass       bool
 	inHeaders    bool
 	errSink      *mRow // detached row currently receiving callback errors, or nil = table
 	pendingRow   *mRow // row being created inside the table by the current step
-	inAttach     bool  // an AddRow call is in progress (row position known only by pointer)
+	attaching    *mRow // the row an AddRow call in progress is attaching
 	itemByVal    map[interface{}]int
 
 	Probes map[string]int
@@ -400,7 +401,9 @@ func (w *World) Do(st *Step) bool {
 			return true
 		}
 		h := d[i]
+		w.attaching = h
 		w.Tab.AddRow(h.real)
+		w.attaching = nil
 		h.attached = true
 		h.pos = len(w.rows) + 1
 		w.rows = append(w.rows, h)
